@@ -458,12 +458,24 @@ def _decreasing_mirror(prog, res):
   lin = prog.function('pwl_calibration_lib.linear_initializer')
   res.analysed(lin)
   found = 0
+  body = []
+  first = None
   for st in ast.walk(lin.node):
     if isinstance(st, ast.If) and isinstance(st.test, ast.Compare) and \
         dotted(st.test.left) == 'monotonicity' and const_value(
             st.test.comparators[0], None) == -1 and isinstance(
                 st.test.ops[0], ast.Eq):
       found += 1
+      first = first or st
+      body.extend(st.body)
+  if found:
+    # (the decreasing case may be spread over several `if monotonicity ==
+    # -1` statements: their bodies are read together)
+    class _B(object):
+      pass
+    st = _B()
+    st.body = body
+    if True:
       hs = [a for a in st.body if isinstance(a, (ast.Assign, ast.AugAssign))
             and 'heights' in (dotted(a.targets[0] if isinstance(
                 a, ast.Assign) else a.target) or '')]
@@ -496,9 +508,12 @@ def _decreasing_mirror(prog, res):
       good = dotted(operand) == tgt
       bias = [a for a in st.body if isinstance(a, ast.Assign) and dotted(
           a.targets[0]) == 'bias']
-      good_b = len(bias) == 1 and dotted(bias[0].value) == 'output_max'
+      if len(bias) != 1:
+        raise AnalysisError('linear_initializer: the start value (bias) of '
+                            'the decreasing case was not found')
+      good_b = dotted(bias[0].value) == 'output_max'
       res.check(good and good_b, 'I6',
-                '%s|decreasing-mirror' % lin.qualname, lin.loc(st),
+                '%s|decreasing-mirror' % lin.qualname, lin.loc(first),
                 'decreasing: bias = output_max, heights = -heights',
                 'the decreasing branch is `%s`: it must start at output_max '
                 'and negate the heights element-wise, nothing else' % (
